@@ -80,6 +80,15 @@ def fixed_calls():
     c.append(("sem-ok", _mk("semantic_analysis", "A <- if DS_1#Me_1 > 5 then DS_1 else DS_2; B <- DS_1 + DS_2;", TP_STRUCT)))
     c.append(("pretty", _mk("prettify", "A <- if DS_1#Me_1 > 5 then DS_1 else DS_2; /* c1 */ B <- nvl(DS_1, 0) + DS_2; // tail\n")))
     c.append(("pretty2", _mk("prettify", "define operator f (x dataset) returns dataset is x * 2 end operator; R <- f(DS_1); /* z */")))
+    # parse-only calls whose outcome carries the comment channel / positions of *their own* parse
+    for i, txt in enumerate([
+            "/* head A */\nDS_r <- DS_1 + DS_2; // after first A\n/* between A */ DS_s := DS_r * 2; /* tail A */",
+            "// only line comment B\nDS_r <- DS_1;",
+            "DS_r <- DS_1 /* inner C */ + DS_2;\n\n\n// far below C\n",
+            "DS_x <- DS_2; /* D1 */ /* D2 */ DS_y <- DS_x[filter Me_1 > 1]; // D3",
+            "define operator g (x dataset) /* sig E */ returns dataset is x * 3 end operator; // def E\nDS_r <- g(DS_1); // call E"]):
+        c.append(("parse-pretty%d" % i, _mk("prettify", txt)))
+        c.append(("parse-ast%d" % i, _mk("create_ast", txt)))
     c.append(("ast", _mk("create_ast", "A := DS_1[calc Me_3 := Me_1 + Me_2][filter Me_3 > 1]; B <- A + DS_2;")))
     c.append(("validate", _mk("validate_dataset", "", TP_STRUCT, TP_DATA)))
     c.append(("validate-v", _mk("validate_dataset", "", V_STRUCT, V_DATA)))
@@ -115,7 +124,11 @@ def make_scenario(rng, corpus_ids=None, gen_pool=None):
                 # calls whose outcome embeds virtual names / the statement's output dataset
                 pool = [x for x in fc if x[0].startswith(("sem-", "virt-", "div0"))]
                 name, op = rng.choice(pool)
-            elif mode < 0.65:
+            elif mode < 0.58:
+                # parse-only calls (cheap): the parser's 'last parse' state is the contended resource
+                pool = [x for x in fc if x[0].startswith(("parse-", "pretty", "ast", "syntax", "gensdmx"))]
+                name, op = rng.choice(pool)
+            elif mode < 0.7:
                 # calls that contend for the same operator class's scratch attributes
                 if opfam is None:
                     opfam = rng.choice(["round", "trunc", "join", "ljoin", "an-", "fts", "agg"])
